@@ -38,6 +38,12 @@ theorem runSpec_length {σ ι ω : Type} (step : σ → ι → σ × ω) (s : σ
 @[simp] theorem newBlock_size (zero : α) (n : Nat) : (newBlock zero n).size = n := by
   simp [newBlock]
 
+theorem newBlock_toList (zero : α) (n : Nat) (h : 1 ≤ n) :
+    (newBlock zero n).toList = zero :: List.replicate (n - 1) zero := by
+  cases n with
+  | zero => omega
+  | succ n => simp [newBlock, List.replicate_succ]
+
 theorem set!_size (b : Array α) (i : Nat) (v : α) : (b.set! i v).size = b.size := by
   simp [Array.set!_eq_setIfInBounds]
 
